@@ -559,8 +559,8 @@ pub fn first_diff(a: &str, b: &str) -> String {
             }
             let name = |c: &Vec<char>| -> String { c.iter().take_while(|ch| **ch != ':' && **ch != ' ').collect() };
             let around = |c: &Vec<char>| -> String {
-                let from = k.saturating_sub(30);
-                let part: String = c.iter().skip(from).take(110).collect();
+                let from = k.saturating_sub(48);
+                let part: String = c.iter().skip(from).take(130).collect();
                 if from > 0 { format!("…{part}") } else { part }
             };
             return format!("[{}] `{}` => [{}] `{}`", name(&cx), around(&cx), name(&cy), around(&cy));
@@ -649,4 +649,36 @@ pub fn strip_union_coercion_projections(text: &str) -> String {
         stack.push((ind, is_union, parent_shift));
     }
     out.join("\n")
+}
+
+/// plan text without ParquetSource's `sort_order_for_reorder=[..]` / `reverse_row_groups=true` options (recorded
+/// finding `parquet-source-reorder-options-dropped`: they are not encoded)
+pub fn strip_parquet_reorder_options(text: &str) -> String {
+    let mut out = String::new();
+    for line in text.lines() {
+        let mut l = line.to_string();
+        while let Some(i) = l.find(", sort_order_for_reorder=[") {
+            let start = i + ", sort_order_for_reorder=[".len();
+            let mut depth = 1;
+            let mut end = l.len();
+            for (k, ch) in l[start..].char_indices() {
+                match ch {
+                    '[' => depth += 1,
+                    ']' => {
+                        depth -= 1;
+                        if depth == 0 {
+                            end = start + k + 1;
+                            break;
+                        }
+                    }
+                    _ => {}
+                }
+            }
+            l.replace_range(i..end, "");
+        }
+        l = l.replace(", reverse_row_groups=true", "");
+        out.push_str(&l);
+        out.push('\n');
+    }
+    out
 }
